@@ -622,8 +622,10 @@ public:
 
   // _eps: the epsilon-skipper world used below lex nodes (ignored if this is the epsilon world)
   world(Ast const &_ast, eps_world *const _eps)
-      : ast_{_ast}, eps_{_eps}, nodes_{}, slots_(_ast.roots.size(), nullptr), start_{nullptr}
+      : ast_{_ast}, eps_{_eps}, nodes_{}, slots_(_ast.roots.size(), nullptr), start_{nullptr}, salt_{0U}
   {
+    for (Node const &n : _ast.nodes)
+      this->salt_ = vh::sm::mix(this->salt_ + static_cast<unsigned>(n.kind) + static_cast<unsigned>(n.num), n.param);
     for (std::size_t r = 0; r < this->ast_.roots.size(); ++r)
     {
       this->slots_[r] = &this->build(this->ast_.roots[r]);
@@ -818,11 +820,16 @@ private:
   template <typename Parser>
   base_t const &add(Parser &&_parser)
   {
+    // the node's parser object travels through a special member of its class first (c02_route.hpp); the route is a
+    // function of the grammar and of the node's number
+    using parser_t = std::remove_cvref_t<Parser>;
+    parser_t routed{c02route::routed_parser<parser_t>(
+        parser_t(std::forward<Parser>(_parser)), this->salt_ + static_cast<unsigned>(this->nodes_.size()) * 5U)};
     // both ways of hiding a parser's type: the free function and the static member of grammar
     if (this->nodes_.size() % 2U == 0U)
-      this->nodes_.push_back(fp::make_base<Ch, Sk>(std::forward<Parser>(_parser)));
+      this->nodes_.push_back(fp::make_base<Ch, Sk>(std::move(routed)));
     else
-      this->nodes_.push_back(fp::grammar<Val, Ch, Sk>::make_base(std::forward<Parser>(_parser)));
+      this->nodes_.push_back(fp::grammar<Val, Ch, Sk>::make_base(std::move(routed)));
     return *this->nodes_.back().get_pointer();
   }
 
@@ -831,6 +838,7 @@ private:
   std::deque<ptr_t> nodes_;         // owns every node; references into a deque stay valid
   std::vector<base_t const *> slots_; // rule i -> its root node, fixed size
   ptr_t const *start_;
+  unsigned salt_; // a hash of the grammar: the special-member routes of the nodes are a function of the operation
 };
 
 // The epsilon world (for everything below lex) plus the outer world.
@@ -878,21 +886,40 @@ public:
     try
     {
       std::string suffix{};
-      fp::result<Ch, Val> const res{this->parse(std::move(_input), suffix)};
+      unsigned const route{c02route::route_of(_input, static_cast<unsigned>(this->entry_))};
+      fp::result<Ch, Val> const res0{this->parse(std::move(_input), suffix)};
+      // the result (one input in ten, chosen by the input itself, which keeps the exhaustive enumerations fast) travels through a special member of
+      // either<error<Ch>, Val>, the error through one of error<Ch> (c02_route.hpp)
+      std::string mm{};
+      bool const routed{route % 10U == 0U};
+      fp::result<Ch, Val> const res{
+          routed ? c02route::routed_result<Ch, Val>(
+                       mm,
+                       route / 10U,
+                       res0,
+                       [](Val const &_v) { return Val::list(std::vector<Val>{_v, Val::integer(113)}); },
+                       [](Val const &_v)
+                       {
+                         std::string o{};
+                         print(_v, o);
+                         return o;
+                       })
+                 : res0};
       if (res.has_success())
       {
         ++_counts.ok;
         std::string out{"ok "};
         print(res.get_success_unsafe(), out);
-        return out + suffix;
+        return out + suffix + mm;
       }
-      if (res.get_failure_unsafe().is_fatal())
+      if (routed ? c02route::routed_error<Ch>(mm, route / 10U, res.get_failure_unsafe()).is_fatal()
+               : res.get_failure_unsafe().is_fatal())
       {
         ++_counts.fatal;
-        return "fatal" + suffix;
+        return "fatal" + suffix + mm;
       }
       ++_counts.fail;
-      return "fail" + suffix;
+      return "fail" + suffix + mm;
     }
     catch (depth_exceeded const &)
     {
